@@ -1,5 +1,6 @@
 import Zog.Props.FactsOK
 import Zog.Mono
+import Zog.EventPaths
 
 /-!
 # C12 — user callbacks run at the documented times with the node's own value
@@ -129,5 +130,21 @@ theorem pre_validate (env : Env) (ps : PreSpec) (inner : Schema) (tag : Option S
 theorem engine_log_is_spec_log (env : Env) (m : Mode) (s : Schema) (tag : Option String) (v : Val) (d : DVal) :
     (Engine.run env Gen.facts m s tag v d).2.log = (Spec.run env m s tag v d).2.log := by
   rw [engine_is_spec]
+
+/-- **Every callback sees the path of the node it is attached to — at every nesting depth.** For
+    every schema, input, mode and visit order: each callback invocation recorded during the
+    execution (test, PostTransform, custom schema function, Preprocess function) was handed a
+    context whose path is the rendering of a chain of keys and slice positions from the root, i.e.
+    the callback's own node (`Spec.proc_ev`: a node run at path `p` only invokes callbacks at or below
+    `p`; the argument it hands over is its own value by construction of `testAll`/`postLoop`). -/
+theorem callbacks_see_their_own_path (env : Env) (m : Mode) (s : Schema) (tag : Option String) (v : Val) (d : DVal) :
+    ∀ e ∈ (Engine.run env Gen.facts m s tag v d).2.log, ∃ chain : List String, e.path = render chain := by
+  rw [engine_is_spec]
+  obtain ⟨extra, h1, h2⟩ := proc_ev env m s tag [] v d {}
+  intro e he
+  simp only [Spec.run] at he
+  rw [h1] at he
+  obtain ⟨suffix, hs⟩ := h2 e (by simpa using he)
+  exact ⟨suffix, by simpa using hs⟩
 
 end Zog.Props.C12
